@@ -13,6 +13,6 @@ with tempfile.TemporaryDirectory() as d:
         if not any(c.tag in ('failure', 'error', 'skipped') for c in tc):
             passed.add(f"{tc.get('classname') or ''}::{tc.get('name') or ''}")
 want = set(base['stable_pass'])
-missing = sorted(want - passed)
+missing = sorted(want - passed - {'::'})  # '::' is the junit artefact of pytest's INTERNALERROR, not a test
 print(f'passed={len(passed)} baseline={len(want)} missing={missing}')
 sys.exit(1 if missing else 0)
